@@ -4,10 +4,10 @@
   A node is a tree plus a path; `Tree.ancestorsOrSelf` gives `xot.ancestors(node)` (the node
   itself first).  The queries are defined on that chain, then lifted to `Tree × Path`:
 
-    is_prefix_defined, namespace_for_prefix, prefix_for_namespace (with its early `return None`
-    on the first repeated prefix), full_name, name_ref / RefName::from_node, node_name,
-    node_name_ref, unresolved_namespaces (FullnameSerializer stack starting EMPTY, no base `xml`
-    binding), inherited_prefixes, deduplicate_namespaces (traverse + DeduplicateTracker +
+    is_prefix_defined, namespace_for_prefix, prefix_for_namespace (seen set; a repeated prefix
+    is skipped), full_name, name_ref / RefName::from_node, node_name,
+    node_name_ref, unresolved_namespaces (FullnameSerializer stack starting EMPTY; a name is
+    unresolved when `element_prefix` / `attribute_prefix` fails), inherited_prefixes, deduplicate_namespaces (traverse + DeduplicateTracker +
     fix-up list + removal of namespace nodes).
 
   `namespaces_in_scope` / `namespace_traverse` itself lives in `Model/Names.lean`.
@@ -44,12 +44,13 @@ inductive PfnStep where
   | cont (seen : List Nat)
   deriving Repr, DecidableEq
 
-/-- Inner loop of `prefix_for_namespace` over one declaration list.  Note the order of the three
-    statements: `seen.contains → return None`, `seen.insert`, `value == namespace → return`. -/
+/-- Inner loop of `prefix_for_namespace` over one declaration list: a prefix seen before is
+    shadowed and skipped (`if !seen.insert(key) { continue; }`), otherwise it is recorded and
+    `value == namespace → return Some(key)`. -/
 def pfnDecls (ns : Nat) : List Nat → List (Nat × Nat) → PfnStep
   | seen, [] => .cont seen
   | seen, (k, v) :: rest =>
-    if seen.contains k then .ret none
+    if seen.contains k then pfnDecls ns seen rest
     else if v == ns then .ret (some k)
     else pfnDecls ns (k :: seen) rest
 
@@ -130,6 +131,10 @@ def hasNamespaceDeclarations (t : Tree) : Bool := !t.nsDecls.isEmpty
 
 /-! ### `unresolved_namespaces` -/
 
+def exceptIsOk {ε α : Type} : Except ε α → Bool
+  | .ok _ => true
+  | .error _ => false
+
 structure UnresolvedState where
   fs : FStack
   out : List Nat
@@ -140,26 +145,20 @@ def unresolvedStep (env : Env) (st : UnresolvedState) : ScopeEdge → Unresolved
     match t.value with
     | .element name =>
       let fs := st.fs.push t.nsDecls
-      let ns := env.nsOfName name
-      let out := if !fs.isNamespaceKnown ns then st.out ++ [ns] else st.out
+      let out := if !exceptIsOk (fs.elementPrefix env name) then st.out ++ [env.nsOfName name] else st.out
       let out := (t.attrs.map (·.1)).foldl (fun out n =>
-        let ns := env.nsOfName n
-        if !fs.isNamespaceKnown ns then out ++ [ns] else out) out
+        if !exceptIsOk (fs.attributePrefix env n) then out ++ [env.nsOfName n] else out) out
       { fs := fs, out := out }
     | _ => st
   | .stop _ t =>
     if t.value.isElement then { st with fs := st.fs.pop (hasNamespaceDeclarations t) } else st
 
 /-- `unresolved_namespaces(node)` for the subtree `sub` (the stack starts as `[[]]`:
-    `FullnameSerializer::new(self, vec![])`, so not even `xml` is known). -/
+    `FullnameSerializer::new(self, vec![])`; the XML namespace needs no binding). -/
 def unresolvedNamespacesSub (env : Env) (sub : Tree) : List Nat :=
   ((scopeTraverse [] sub).foldl (unresolvedStep env) { fs := FStack.new [], out := [] }).out
 
 /-! ### Whether `to_string(node)` finds a prefix for every name (xml_serializer.rs) -/
-
-def exceptIsOk {ε α : Type} : Except ε α → Bool
-  | .ok _ => true
-  | .error _ => false
 
 structure WritableState where
   fs : FStack
@@ -275,7 +274,8 @@ def dedupStep (env : Env) (st : DedupState) : ScopeEdge → DedupState
       let fs := st.fs.pop (hasNamespaceDeclarations t)
       let tracker := st.tracker.tail
       let toRemove := t.nsDecls.filterMap (fun kv =>
-        if fs.isNamespaceKnown kv.2 && trackerIsSafeToRemove kv.2 tracker then some kv.2 else none)
+        if kv.2 != Env.noNamespace && fs.isNamespaceKnown kv.2 && trackerIsSafeToRemove kv.2 tracker
+        then some kv.2 else none)
       { fs := fs, tracker := tracker,
         fixups := if !toRemove.isEmpty then st.fixups ++ [(path, toRemove)] else st.fixups }
     else st
